@@ -13,6 +13,7 @@ Each directory holds `patch.diff` (a change to ARCJ137442/Narsese.rs that compil
 * Wave 4 (17 changes, ids `W4-…`, written after the seeded random stages of DESIGN §13.5 were in place; each had to need something specific to manifest): 15 caught at once, 2 missed (a hash that samples the first 32 elements of a set; a lexical stamp character class that lost `+`, asked of C15 / C03 – C02 caught the same change); after the extensions (sets of 33 … 257 elements, wide nodes in the random values, texts written by the lexical formatter for C03, signed lexical stamps in C15) all 17 are caught.
 * Wave 5 (17 changes, ids `W5-…`, unusual triggers: relations inside one input, same-thread history, Unicode properties, uncommon boundaries; run against the machinery as committed before the wave, column *quick check result*): 11 caught at once, 6 missed; after the extensions described in DESIGN §13.4 (column *after*) all 17 are caught. `W5-C01-enum-name-invisible-chars` does not violate C01 by C01's own definition of well-formed names (the name is no longer an identifier of the format); it is caught as a disagreement between the enum and the lexical name alphabets by C03's vocabulary clause.
 * Wave 6 (17 changes, ids `W6-…`, format-specific keyword interactions, adjacent-token pairs, direct nesting, item combinations; the agents were additionally told in a few sentences what kinds of inputs the framework enumerates; run against the machinery as committed before the wave): 9 caught at once, 8 missed; after the extensions of DESIGN §13.4 (column *after*) all 17 are caught. The extension for `W6-C01-han-parallel-prefix` uncovered the genuine finding F11.
+* Wave 7 (16 changes, ids `W7-…`, "what is such a framework still blind to": state outside the input, alternative entry points, iterator kinds, address-keyed caches; run against the machinery as committed before the wave): 7 caught at once, 9 missed – all of them blind spots of the harness (which instance, entry point or iterator it uses), not of the universes; after the extensions of DESIGN §13.4 all 16 are caught.
 
 | seed | breaks | demo without / with | suite with | quick check result | after strengthening |
 |---|---|---|---|---|---|
